@@ -243,6 +243,26 @@ class C08Mixin(object):
             same = all(src[i.isotope] is i for i in got)
         return {"nums": nums, "same": same, "increasing": nums == sorted(set(nums))}
 
+    def ev_pickle_whole(self, tbl, ref, q_new, what, how):
+        """Pickle / deep-copy something bigger than an atom (an atom's ion set, or the whole table),
+        use another ion of that atom for the first time, restore the copy, and look again: the ion
+        handed out in between must still be the atom's ion."""
+        t = self.table(tbl)
+        a = self.atom(tbl, ref)
+        obj = a.ion if what == "ionset" else t
+        if how == "deepcopy":
+            x = a.ion[q_new]
+            copy.deepcopy(obj)
+        else:
+            blob = pickle.dumps(obj, int(how.split(":")[1]))
+            x = a.ion[q_new]
+            pickle.loads(blob)
+        y = a.ion[q_new]
+        rep = self._report(y)
+        rep["same"] = x is y
+        rep["orig"] = self.ident(x)
+        return rep
+
     def ev_define_elements(self, tbl, prefill):
         """core.define_elements(table, namespace): the documented way to export a table's atoms as
         variables.  The namespace may already hold the names of another table (a module that did
